@@ -709,7 +709,7 @@ func runC12(c *CaseCtx) {
 func init() {
 	register(&Check{
 		ID: "C12", Level: "fault_enumeration", NoLeakMonitor: true,
-		NCases: func(t string) int { return tier(t, 160, 3000) },
+		NCases: func(t string) int { return tier(t, 160, 1500) },
 		Run:    runC12,
 		Rule: "[also: in the Merge variant half of the two-record templates with SyncEnable fail exactly at the sync after the last record (in doubt), then Merge] case = seeded history in which transactions end in: fn error after j operations (every j), explicit Rollback, an oversized entry at the first/middle/last position, an injected I/O error (write with and without a partial write left behind, open, truncate, close) at the j-th file operation of the Commit for j = 1,2,... until the Commit gets through, an injected sync error (outcome in doubt: all-or-nothing), " +
 			"read-only transactions calling every exported Tx method (reflection-enumerated, mutators included), and every method called on committed / rolled-back transactions; after each fault the full observation must equal the model state before it, in the process and (1 in 3) after reopen; the history continues with more commits and a final reopen; " +
